@@ -97,8 +97,9 @@ class init_:
         return self.cards == cards
 
 
-def _hand_with_index(cls, index):
-    """a real hand of class `cls` whose entry index is `index` (None if the table has no such index)"""
+def _hand_with_index(cls, index, other_key_than=None):
+    """a real hand of class `cls` whose entry index is `index` (None if the table has no such index); with `other_key_than`, one
+    whose table key differs from that hand's"""
     import itertools
     from pokerkit.utilities import Deck
     sizes = {'BadugiHand': (1, 2, 3, 4), 'StandardBadugiHand': (1, 2, 3, 4), 'KuhnPokerHand': (1,)}.get(cls.__name__, (5,))
@@ -108,7 +109,7 @@ def _hand_with_index(cls, index):
                 h = cls(cards)
             except ValueError:
                 continue
-            if h.entry.index == index:
+            if h.entry.index == index and (other_key_than is None or h.entry is not other_key_than.entry):
                 return h
             if k == 5 and cards[0].rank.value not in '2A' and False:
                 break
@@ -125,6 +126,11 @@ def _native_case(method):
         a, o = _hand_with_index(cls, b.get('ia')), _hand_with_index(other_cls, b.get('ib'))
         if a is None or o is None:
             return None
+        if cls is other_cls and b.get('ia') == b.get('ib') and b.get('ka') != b.get('kb'):
+            # the model speaks of two DIFFERENT table keys with the same index: find such a pair of real hands
+            o = _hand_with_index(cls, b.get('ia'), other_key_than=a)
+            if o is None:
+                return None
         fn = {'__eq__': lambda: a.__eq__(o), '__lt__': lambda: a.__lt__(o), '__gt__': lambda: a.__gt__(o),
               '__le__': lambda: a.__le__(o), '__ge__': lambda: a.__ge__(o), '__hash__': lambda: hash(a)}[method]
         return {'call': fn, 'desc': f'{a!r} vs {o!r}',
@@ -161,17 +167,24 @@ def run(src, task, verify_contract, Shape):
     K = CONTRACTS[task['method']]
     cls, other_cls = getattr(H, task['cls']), getattr(H, task['other'])
     ia, ib = z3.Int('entry_index.self'), z3.Int('entry_index.other')
+    # WHICH stored entry object a hand gets (one per table key): identity tags.  The same key gives the same object and so the same
+    # index; different keys may well share an index (a suited and an unsuited low of the same ranks); different tables share nothing
+    ka, kb = z3.Int('entry_key.self'), z3.Int('entry_key.other')
     cells = {}
+    tags = {}
 
     def entry_cut(I, ctx, fn, args, kwargs, node):
         ref = args[0]
         idx = cells[ref.cell]
-        return SymObj(L.Entry, {'index': idx, 'label': Opaque('label')})
+        return SymObj(L.Entry, {'index': idx, 'label': Opaque('label')}, ident=tags[ref.cell])
 
     def mk_hand(c, idx, nm):
         def mk(I, ctx, wf, shape):
             ref = ctx.alloc('obj', SymObj(c, {'_Hand__cards': Opaque(nm + '.cards')}))
             cells[ref.cell] = idx
+            tags[ref.cell] = ka if nm == 'self' else kb
+            if nm == 'other':
+                wf.append(z3.Implies(ka == kb, ia == ib) if type(cls.lookup) is type(other_cls.lookup) else ka != kb)
             return ref
         return mk
     makers = {'self': mk_hand(cls, ia, 'self'), 'other': mk_hand(other_cls, ib, 'other')}
@@ -179,7 +192,7 @@ def run(src, task, verify_contract, Shape):
     has_entry = z3.Bool('lookup.has_entry(cards)')
 
     def setup(vc, ctx0, bindings):
-        bindings.update({'ia': ia, 'ib': ib, 'low': bool(cls.low), 'same_class': cls is other_cls, 'has_entry': has_entry})
+        bindings.update({'ia': ia, 'ib': ib, 'ka': ka, 'kb': kb, 'low': bool(cls.low), 'same_class': cls is other_cls, 'has_entry': has_entry})
         if task['method'] == '__hash__':
             # the other hand's hash, computed by the same real body
             sub = ctx0.fork(); sub.exits = []
